@@ -148,11 +148,11 @@ def shard(ctx):
     rng = ctx.rng
     track.install()
     route(ctx)
-    n = ctx.scale(4800, 160000)
+    n = ctx.scale(12000, 160000)
     for k in range(n):
         one_sequence(ctx, rng, memo=(k % 4 == 3))
     # shipped + generated modules through ProofExp.serialize with the hook on
-    mw.serialize_modules(ctx, rng, ctx.scale(64, 2000), shipped=(ctx.shard == 0))
+    mw.serialize_modules(ctx, rng, ctx.scale(128, 2000), shipped=(ctx.shard == 0))
     # the repository's own tests as a workload (their assertions are irrelevant; the calls flow past M-track)
     if ctx.shard == 1:
         own_tests(ctx)
